@@ -419,7 +419,7 @@ def _large_community(value: str) -> LargeCommunity:
     if separator > 0:
         prefix, affix, suffix = value.split(':')
 
-        if not any(map(lambda c: c.isdigit(), [prefix, affix, suffix])):
+        if not all(map(lambda c: c.isdigit(), [prefix, affix, suffix])):
             raise ValueError('invalid community {}'.format(value))
 
         prefix_int, affix_int, suffix_int = map(int, [prefix, affix, suffix])
